@@ -73,7 +73,8 @@ def gen_session(rng, depth_target, heavy=False):
             wrap = not ('read_frag' not in req and rng.random() < 0.3)
             build = (lambda s, c, cip=cip, wrap=wrap: rc.rr_frame(rc.enc_unconnected_send(cip) if wrap else cip, s, c))
             steps.append((kind, build, {'command': 0x6F, 'service': cip[0] | 0x80}))
-    end = rng.choice(['none', 'none', 'unregister', 'unsupported-service', 'unroutable'])
+    gen_session.counter = getattr(gen_session, 'counter', 0) + 1
+    end = ['none', 'unsupported-service', 'unregister', 'unroutable', 'none'][gen_session.counter % 5]     # every ending occurs, deterministically
     if end == 'unregister':
         steps.append(('end:unregister', lambda s, c: rc.enc_frame(0x66, b'', session=s, context=c), {'no_reply': True}))
     elif end == 'unsupported-service':
